@@ -341,11 +341,10 @@ func (StdEng) prepReduce(a Tensor, axis int, opts ...FuncOpt) (at, reuse DenseTe
 	}
 
 	// DATA PREP
-	var useIter bool
-	if dataA, dataReuse, _, _, useIter, err = prepDataUnary(a, reuse); err != nil {
-		err = errors.Wrapf(err, "StdEng.Reduce data prep")
-		return
-	}
+	// the result has a shape and a layout of its own: only tensors that need an iterator are turned down
+	dataA = a.hdr()
+	dataReuse = reuse.hdr()
+	useIter := a.RequiresIterator() || reuse.RequiresIterator()
 
 	var ok bool
 	if at, ok = a.(DenseTensor); !ok || useIter {
